@@ -131,6 +131,12 @@ func verifInit() {
 				s.crashSig = syscall.SIGTERM
 			case "INT":
 				s.crashSig = syscall.SIGINT
+			case "HUP":
+				s.crashSig = syscall.SIGHUP
+			case "USR1":
+				s.crashSig = syscall.SIGUSR1
+			case "USR2":
+				s.crashSig = syscall.SIGUSR2
 			}
 		}
 	}
@@ -152,6 +158,8 @@ func verifInit() {
 				s.kpSig = syscall.SIGTERM
 			case "INT":
 				s.kpSig = syscall.SIGINT
+			case "HUP":
+				s.kpSig = syscall.SIGHUP
 			}
 		}
 	}
